@@ -10,6 +10,7 @@ rmdir "$WT"
 git -C /repo worktree add -q "$WT" HEAD || exit 2
 if ! git -C "$WT" apply "$PATCH"; then echo "PATCH-DOES-NOT-APPLY $PATCH"; git -C /repo worktree remove --force "$WT"; exit 2; fi
 export VERIF_EVIDENCE_DIR="$WT/.verif_evidence"
+export VERIF_OUT_DIR="$WT/.verif_out"
 for id in "$@"; do
   if [ "$CASES" != "-" ]; then export VERIF_CASES="$CASES"; fi
   VERIF_REPO="$WT" VERIF_SKIP_SELFTEST=1 timeout 1800 "$HERE"/check "$id" quick > "$WT/.verif_log" 2>&1
